@@ -147,3 +147,14 @@ package sqlx
 //@   ghost at after scanFn#0: sf0 = scanFailed
 //@   ensures result == ret(scanFn) && calls(scanFn) == old(calls(scanFn)) + 1
 //@   ensures_local scanFailed == (sf0 || (result != nil && !errors.Is(result, context.DeadlineExceeded)))
+
+// exec reports exactly what the driver reported for the statement (the logging guard only observes it): a failed statement is
+// a failed statement whatever the logging configuration
+//@ func exec
+//@   property C14
+//@   results res, err
+//@   ghost at entry: ran = false
+//@   ghost at after ExecContext#0: ran = true
+//@   ghost at after ExecContext#0: de = ret1
+//@   call return#1: assert ran && implies(de != nil, raw1 == de)
+//@   modifies heap
